@@ -481,6 +481,9 @@ class Interp(object):
             st = states[name]
             if data is None:
                 self.flags.null_document = True
+            if isinstance(data, dict) and data.get("Error"):
+                # the engine signals failure in-band through an "Error" member of the event data
+                self.flags.inband_error = True
             self.out.transitions.append((t, "entered", name, copy.deepcopy(data)))
             try:
                 kind, value, t2, nxt = self.run_state(name, st, data, t)
